@@ -27,7 +27,7 @@ import (
 func verifReseed(seed uint64, on bool) uint64
 
 //go:linkname verifSetWake runtime.verifSetWake
-func verifSetWake(permille uint32)
+func verifSetWake(permille uint32) uint32
 
 //go:linkname verifDraws runtime.verifDraws
 func verifDraws() uint64
@@ -158,6 +158,12 @@ func result(r *h.Run, rtSeed uint64) *h.Result {
 	w := r.W
 	res := &h.Result{Prop: w.Spec.Prop, Case: w.Spec.Case, Seed: w.Spec.Seed, Verdict: "ok",
 		Faults: w.Faults(), Probes: w.Probes(), SimNS: int64(w.Now()), Events: len(w.Events), LogHash: w.LogHash(), Info: r.Info}
+	if n := verifSetWake(uint32(w.Spec.Wake)); n > 0 {
+		if res.Faults == nil {
+			res.Faults = map[string]int{}
+		}
+		res.Faults["sched.wake-to-tail"] = int(n)
+	}
 	res.Violations = r.Violations()
 	if len(res.Violations) > 0 {
 		res.Verdict = "violation"
